@@ -36,6 +36,14 @@ structure GInv (p : Params) (c : State) (stops : Nat) (g : G) : Prop where
   covFirst : g.s0 = stops → g.pc = .gotFirst →
     g.ce ≤ c.clockEnd ∧ (c.running = true ∨ g.ce < c.current ∨ c.started = false)
   covDone : g.s0 = stops → g.pc = .done → g.e ≤ c.clockEnd ∧ (c.running = true ∨ g.e ≤ c.current)
+  /-- the deadline was made after the call began, and not in the future -/
+  made_ge : g.t0 ≤ g.tMade
+  made_le : g.tMade ≤ c.now
+  /-- the returned `end` is not late: reached already, or at most `effDur` after the time it was made -/
+  within : g.pc = .done → c.started = true →
+    g.e ≤ c.current ∨ 1048576 * g.e ≤ (g.tMade - c.startNs) + effDur p.period g.d
+  withinUn : g.pc = .done → c.started = false → g.e ≤ 0
+  firstUn : g.pc = .gotFirst → c.started = false → g.ce ≤ 0
 
 structure Inv (p : Params) (s : CState) : Prop where
   clk : CInv p s.clk
@@ -89,100 +97,122 @@ theorem ginv_lock_frame (p : Params) (hp : p.Valid) (c : State) (n : Nat) (g : G
   rw [ticks_eq] at hslop
   obtain ⟨hp0, hp1, he0, hs0, hs1⟩ := hp
   obtain ⟨c1, c2, c3, c4, c5⟩ := h
-  obtain ⟨g1, g2, g3, g4, g5, g6, g7, g8, g9⟩ := hg
-  refine ⟨g1, g2, ?_, g4, g5, ?_, ?_, ?_, ?_⟩
+  obtain ⟨g1, g2, g3, g4, g5, g6, g7, g8, g9, g10, g11, g12, g13, g14⟩ := hg
+  refine ⟨g1, g2, ?_, g4, g5, ?_, ?_, ?_, ?_, g10, ?_, ?_, ?_, ?_⟩
   · clk_omega c
   · intro hpc; have := g6 hpc; clk_omega c
   · intro hpc; have := g7 hpc; clk_omega c
   · intro hs hpc; have := g8 hs hpc; clk_omega c
   · intro hs hpc; have := g9 hs hpc; clk_omega c
+  · clk_omega c
+  · intro hpc; have := g12 hpc; have := g13 hpc; clk_omega c
+  · intro hpc; have := g13 hpc; clk_omega c
+  · intro hpc; have := g14 hpc; clk_omega c
 
 theorem ginv_tick (p : Params) (hp : p.Valid) (c : State) (n : Nat) (g : G) (dt : Int) (h : CInv p c)
     (hg : GInv p c n g) (hr : c.running = true) (h0 : 0 ≤ dt) : GInv p (tick c dt) n g := by
   obtain ⟨hp0, hp1, he0, hs0, hs1⟩ := hp
   obtain ⟨c1, c2, c3, c4, c5⟩ := h
-  obtain ⟨g1, g2, g3, g4, g5, g6, g7, g8, g9⟩ := hg
-  refine ⟨g1, g2, ?_, g4, g5, ?_, ?_, ?_, ?_⟩
+  obtain ⟨g1, g2, g3, g4, g5, g6, g7, g8, g9, g10, g11, g12, g13, g14⟩ := hg
+  refine ⟨g1, g2, ?_, g4, g5, ?_, ?_, ?_, ?_, g10, ?_, ?_, ?_, ?_⟩
   · clk_omega c
   · intro hpc; have := g6 hpc; clk_omega c
   · intro hpc; have := g7 hpc; clk_omega c
   · intro hs hpc; have := g8 hs hpc; clk_omega c
   · intro hs hpc; have := g9 hs hpc; clk_omega c
+  · clk_omega c
+  · intro hpc; have := g12 hpc; clk_omega c
+  · intro hpc; have := g13 hpc; clk_omega c
+  · intro hpc; have := g14 hpc; clk_omega c
 
 theorem ginv_idle (p : Params) (c : State) (n : Nat) (g : G) (dt : Int)
     (hg : GInv p c n g) (h0 : 0 ≤ dt) : GInv p { c with now := c.now + dt } n g := by
-  obtain ⟨g1, g2, g3, g4, g5, g6, g7, g8, g9⟩ := hg
-  exact ⟨g1, g2, by show g.t0 ≤ c.now + dt; omega, g4, g5, g6, g7, g8, g9⟩
+  obtain ⟨g1, g2, g3, g4, g5, g6, g7, g8, g9, g10, g11, g12, g13, g14⟩ := hg
+  exact ⟨g1, g2, by show g.t0 ≤ c.now + dt; omega, g4, g5, g6, g7, g8, g9, g10,
+    by show g.tMade ≤ c.now + dt; omega, g12, g13, g14⟩
 
 theorem ginv_stop (p : Params) (c : State) (n : Nat) (g : G)
     (hg : GInv p c n g) : GInv p (stop c) (n + 1) g := by
-  obtain ⟨g1, g2, g3, g4, g5, g6, g7, g8, g9⟩ := hg
-  refine ⟨g1, g2, g3, by omega, g5, g6, g7, ?_, ?_⟩
+  obtain ⟨g1, g2, g3, g4, g5, g6, g7, g8, g9, g10, g11, g12, g13, g14⟩ := hg
+  refine ⟨g1, g2, g3, by omega, g5, g6, g7, ?_, ?_, g10, g11, g12, g13, g14⟩
   · intro hs; omega
   · intro hs; omega
 
 /-! ### the invariant of the call that moves (new variant) -/
 
 theorem ginv_new (p : Params) (c : State) (n : Nat) (d : Int) (hd0 : 0 ≤ d) (hd1 : d ≤ maxInt64) :
-    GInv p c n { t0 := c.now, d := d, pc := .start, ce := 0, e := 0, s0 := n } := by
-  refine ⟨hd0, hd1, ?_, ?_, ?_, ?_, ?_, ?_, ?_⟩ <;> simp
+    GInv p c n { t0 := c.now, d := d, pc := .start, ce := 0, e := 0, s0 := n, tMade := c.now } := by
+  refine ⟨hd0, hd1, ?_, ?_, ?_, ?_, ?_, ?_, ?_, ?_, ?_, ?_, ?_, ?_⟩ <;> simp
 
 /-- step 1: read clockEnd -/
 theorem ginv_readCE (p : Params) (hp : p.Valid) (c : State) (n : Nat) (g : G) (h : CInv p c)
     (hg : GInv p c n g) : GInv p c n { g with pc := .gotFirst, ce := c.clockEnd } := by
   obtain ⟨hp0, hp1, he0, hs0, hs1⟩ := hp
   obtain ⟨c1, c2, c3, c4, c5⟩ := h
-  obtain ⟨g1, g2, g3, g4, g5, g6, g7, g8, g9⟩ := hg
-  refine ⟨g1, g2, g3, g4, ?_, ?_, ?_, ?_, ?_⟩
+  obtain ⟨g1, g2, g3, g4, g5, g6, g7, g8, g9, g10, g11, g12, g13, g14⟩ := hg
+  refine ⟨g1, g2, g3, g4, ?_, ?_, ?_, ?_, ?_, g10, g11, ?_, ?_, ?_⟩
   · simp
   · intro _; clk_omega c
   · intro hpc; simp at hpc
   · intro _ _; clk_omega c
   · intro _ hpc; simp at hpc
+  · intro hpc; simp at hpc
+  · intro hpc; simp at hpc
+  · intro _; clk_omega c
 
 /-- step 2: read current, compute `end`, compare -/
 theorem ginv_readCur (p : Params) (hp : p.Valid) (c : State) (n : Nat) (g : G) (h : CInv p c)
     (hg : GInv p c n g) (hpc : g.pc = .gotFirst) :
-    GInv p c n { g with e := c.current + deadlineTicks p.period g.d,
+    GInv p c n { g with e := c.current + deadlineTicks p.period g.d, tMade := c.now,
                         pc := if c.current + deadlineTicks p.period g.d > g.ce then .needLock else .done } := by
   obtain ⟨hp0, hp1, he0, hs0, hs1⟩ := hp
   obtain ⟨c1, c2, c3, c4, c5⟩ := h
-  obtain ⟨g1, g2, g3, g4, g5, g6, g7, g8, g9⟩ := hg
+  obtain ⟨g1, g2, g3, g4, g5, g6, g7, g8, g9, g10, g11, g12, g13, g14⟩ := hg
   obtain ⟨hdt, heff0, heff1, heff2, heff3, heff4, _⟩ := dt_facts p.period g.d hp0 hp1 g1 g2
   generalize hE : effDur p.period g.d = E at *
   generalize hD : deadlineTicks p.period g.d = D at *
   have h6 := g6 hpc
+  have h14 := g14 hpc
   by_cases hgt : c.current + D > g.ce
   · simp only [hgt, ↓reduceIte]
-    refine ⟨g1, g2, g3, g4, ?_, ?_, ?_, ?_, ?_⟩ <;> simp
+    refine ⟨g1, g2, g3, g4, ?_, ?_, ?_, ?_, ?_, g3, ?_, ?_, ?_, ?_⟩ <;> simp
   · simp only [hgt, ↓reduceIte]
-    refine ⟨g1, g2, g3, g4, ?_, ?_, ?_, ?_, ?_⟩
+    refine ⟨g1, g2, g3, g4, ?_, ?_, ?_, ?_, ?_, g3, ?_, ?_, ?_, ?_⟩
     · simp
     · intro h; simp at h
     · intro _; clk_omega c
     · intro _ h; simp at h
     · intro hs _; have := g8 hs hpc; clk_omega c
+    · simp
+    · intro _; clk_omega c
+    · intro _; clk_omega c
+    · intro h; simp at h
 
 /-- step 3: the locked section -/
 theorem ginv_lock (p : Params) (hp : p.Valid) (c : State) (n : Nat) (g : G) (h : CInv p c)
     (hg : GInv p c n g) :
     GInv p (extendClock p (refresh c) ((refresh c).current + deadlineTicks p.period g.d)) n
-      { g with e := (refresh c).current + deadlineTicks p.period g.d, pc := .done } := by
+      { g with e := (refresh c).current + deadlineTicks p.period g.d, tMade := c.now, pc := .done } := by
   have hslop := slop_ticks_nonneg p hp
   rw [ticks_eq] at hslop
   obtain ⟨hp0, hp1, he0, hs0, hs1⟩ := hp
   obtain ⟨c1, c2, c3, c4, c5⟩ := h
-  obtain ⟨g1, g2, g3, g4, g5, g6, g7, g8, g9⟩ := hg
+  obtain ⟨g1, g2, g3, g4, g5, g6, g7, g8, g9, g10, g11, g12, g13, g14⟩ := hg
   obtain ⟨hdt, heff0, heff1, heff2, heff3, heff4, _⟩ := dt_facts p.period g.d hp0 hp1 g1 g2
   generalize hE : effDur p.period g.d = E at *
   generalize hD : deadlineTicks p.period g.d = D at *
-  refine ⟨g1, g2, ?_, g4, ?_, ?_, ?_, ?_, ?_⟩
+  refine ⟨g1, g2, ?_, g4, ?_, ?_, ?_, ?_, ?_, ?_, ?_, ?_, ?_, ?_⟩
   · clk_omega c
   · simp
   · intro h; simp at h
   · intro _; clk_omega c
   · intro _ h; simp at h
   · intro _ _; clk_omega c
+  · clk_omega c
+  · clk_omega c
+  · intro _; clk_omega c
+  · intro _; clk_omega c
+  · intro h; simp at h
 
 /-! ### every step of the new variant preserves the invariant -/
 
@@ -332,8 +362,9 @@ theorem run_solo (v : Variant) (p : Params) (s : CState) (d : Int) (hd : 0 ≤ d
 /-- the steps of one call executed in a row are `Clock.makeDeadline`, in every variant -/
 theorem iterG_makeDeadline (v : Variant) (p : Params) (c : State) (g : G) (hpc : g.pc = .start) :
     ∃ k, k ≤ 4 ∧ iterG v p k (c, g) =
-      some ((makeDeadline p c g.d).1, { g with pc := .done, ce := c.clockEnd, e := (makeDeadline p c g.d).2 }) := by
-  obtain ⟨t0, d, pc, ce, e, s0⟩ := g
+      some ((makeDeadline p c g.d).1,
+        { g with pc := .done, ce := c.clockEnd, e := (makeDeadline p c g.d).2, tMade := c.now }) := by
+  obtain ⟨t0, d, pc, ce, e, s0, tm⟩ := g
   simp only at hpc
   subst hpc
   generalize hD : deadlineTicks p.period d = D
@@ -348,5 +379,37 @@ theorem iterG_makeDeadline (v : Variant) (p : Params) (c : State) (g : G) (hpc :
       simp [iterG, stepG, makeDeadline, hD, hgt]
   · refine ⟨2, by omega, ?_⟩
     cases v <;> simp [iterG, stepG, makeDeadline, hD, hgt]
+
+/-- `Clock.makeDeadline` on a clock with no updater (never started / exited / stopped): it takes the
+    locked path, refreshes `current`, starts the updater.  Needs only the clock invariant, so it applies
+    to the clock of any reachable state of the interleaving model. -/
+theorem makeDeadline_restart (p : Params) (hp : p.Valid) (c : State) (h : CInv p c) (hr : c.running = false)
+    (d : Int) (hd0 : 0 ≤ d) (hd1 : d ≤ maxInt64) (hfirst : c.started = true ∨ 1048576 ≤ d + p.period) :
+    (makeDeadline p c d).1.running = true ∧ (makeDeadline p c d).1.started = true ∧
+    (makeDeadline p c d).1.now = c.now ∧ (makeDeadline p c d).1.lastWrite = c.now ∧
+    (makeDeadline p c d).1.current = ticks (c.now - (makeDeadline p c d).1.startNs) ∧
+    (makeDeadline p c d).2 = (makeDeadline p c d).1.current + deadlineTicks p.period d ∧
+    (makeDeadline p c d).2 + ticks p.slop ≤ (makeDeadline p c d).1.clockEnd := by
+  obtain ⟨hp0, hp1, he0, hs0, hs1⟩ := hp
+  obtain ⟨hdt, heff0, heff1, heff2, heff3, heff4, heff5⟩ := dt_facts p.period d hp0 hp1 hd0 hd1
+  generalize hD : deadlineTicks p.period d = D at *
+  generalize hE : effDur p.period d = E at *
+  have hgt : c.current + D > c.clockEnd := by
+    cases hst : c.started
+    · have hu := h.unstarted hst
+      rcases hfirst with h1 | h1
+      · simp [hst] at h1
+      · have : 1048576 ≤ E := by
+          by_cases h2 : d ≤ maxInt64 - p.period
+          · have := heff4 h2; omega
+          · have := heff5 (by omega); unfold maxInt64 at *; omega
+        omega
+    · have := h.stopped hst hr; omega
+  cases hst : c.started <;>
+    simp only [makeDeadline, refresh, extendClock, hr, hst, hgt, hD, ticks_eq, Bool.not_true, Bool.not_false,
+      Bool.and_true, Bool.and_false, Bool.false_eq_true, ↓reduceIte]
+  · have hu := h.unstarted hst
+    exact ⟨trivial, trivial, trivial, trivial, by omega, trivial, by omega⟩
+  · exact ⟨trivial, trivial, trivial, trivial, trivial, trivial, by omega⟩
 
 end RegexVerif.Lemmas.ClockConc
